@@ -22,6 +22,8 @@ THEOREMS = [
     "Typedpy.C13.none_first_equiv", "Typedpy.C13.none_inner_optional", "Typedpy.C13.hasNoneOpt_position",
     "Typedpy.C13.tuple_single_equiv", "Typedpy.C13.none_default_equiv",
     "Typedpy.C13.factory_default_equiv", "Typedpy.C13.fixed_factory_builtin_class",
+    "Typedpy.C13.scope_irrelevant", "Typedpy.C13.string_annotation_equiv", "Typedpy.C13.counterexample_quoted_future",
+    "Typedpy.C13.counterexample_quoted_50", "Typedpy.C13.counterexample_enclosing_scope",
     "Typedpy.C13.equiv_example",
 ]
 RULE = ("class bodies of 1-3 fields; each field an abstract meaning tree (scalar / constrained field literal / bare or "
@@ -45,12 +47,17 @@ RULE = ("class bodies of 1-3 fields; each field an abstract meaning tree (scalar
         "enumerated by a directed stream over every spelling (`= f` on builtin / typing / PEP-585 / PEP-604 / Field class / "
         "Field instance annotations, `default=f`); probe: 3 instances built without the field, products relative to the first, "
         "mutation independence. An oracle-only stream covers Structure-class-valued fields (Owner, Optional, alternatives, "
-        "lists; with factories returning Structure instances and a rename-the-first-owner probe)")
+        "lists; with factories returning Structure instances and a rename-the-first-owner probe). String annotations x "
+        "definition scope: every non-reference variant is placed at module level / inside a function that defines the "
+        "type names / one function deeper / below the function that defines them, with evaluated, future-import or "
+        "QUOTED annotations (random, plus a directed stream enumerating the 4 x 4 product); function-scope modules are "
+        "written to disk and imported; which names an enclosing-scope string annotation cannot resolve is read off "
+        "Python's own code object (co_freevars); reference = evaluated annotations at module level")
 ASSUMPTIONS = [
     "vocabulary: int/str/float/bool/Any, list/set/frozenset/deque/single-argument tuple and their typing aliases, dict/Dict/Map, Optional/Union/AnyOf/|, "
     "constrained Integer/Float/Number/String/Enum literals; multi-argument tuples, date/time and Structure-valued fields are not in the spelling grammar",
     "defaults are immutable scalar literals (int/str/float/bool) and the literal `= None` (validated, but not a default afterwards); `default=None` (= no default), callable and mutable defaults are outside the modelled domain",
-    "the class source is executed at module level of a module registered in sys.modules (what the future-annotations eval needs)",
+    "the class source is executed in a module registered in sys.modules (what the future-annotations eval needs), at module level or inside functions of that module; function-scope modules are real files imported through importlib",
     "Python 3.12 typing semantics (Union flattening / de-duplication, no callable check on arguments)",
 ]
 TRUSTED_EXTRA = [
@@ -69,7 +76,7 @@ def pre_build():
 
 
 def cases(rng, tier):
-    return S.gen_cases(rng, tier, 480 if tier == "quick" else 2400)
+    return S.gen_cases(rng, tier, 480 if tier == "quick" else 2300)
 
 
 def search_cases(rng, tier):
